@@ -21,6 +21,9 @@ V(ok, An, why) == [ok |-> ok, A |-> An, why |-> why]
 NoCall == [op |-> "none"]
 Pair(tc) == [k |-> IF tc[2] = 0 THEN "none" ELSE "pair", v |-> IF tc[2] = 0 THEN <<>> ELSE tc]
 
+\* the recipe reports the mean total/count (as an exact fraction <<num, den>>) of a stored pair, or nothing
+MeanOf(ret, pair) == IF pair.k = "none" THEN ret.k = "none"
+                     ELSE ret.k = "mean" /\ ret.v[1] * pair.v[2] = pair.v[1] * ret.v[2]
 AvgStep(Ao, e) ==
     IF e.ev = "call"
     THEN V(TRUE, [Ao EXCEPT !.call[e.c] = [op |-> e.op, v |-> e.v, st |-> "open", cand |-> {Pair(Ao.tc)}, exp |-> Pair(<<0, 0>>)]], "")
@@ -48,10 +51,12 @@ AvgStep(Ao, e) ==
              Aq == [Ao EXCEPT !.call[e.c] = NoCall]
          IN IF cl.op = "add" /\ cl.st # "committed" /\ e.ret.k = "none"
             THEN V(FALSE, Ao, "C20 add returned without committing its value")
-            ELSE IF cl.op = "get" /\ e.ret \notin cl.cand
-            THEN V(FALSE, Ao, "C20 get returned " \o ToJson(e.ret) \o " but the mean of the completed adds was one of " \o ToJson(cl.cand))
-            ELSE IF cl.op = "pop" /\ cl.st = "committed" /\ e.ret # cl.exp
-            THEN V(FALSE, Ao, "C20 pop returned " \o ToJson(e.ret) \o " expected " \o ToJson(cl.exp))
+            ELSE IF cl.op = "get" /\ ~\E p \in cl.cand : MeanOf(e.ret, p)
+            THEN V(FALSE, Ao, "C20 get returned " \o ToJson(e.ret) \o " but the mean of the completed adds was that of one of " \o ToJson(cl.cand))
+            ELSE IF cl.op = "pop" /\ cl.st = "committed" /\ ~MeanOf(e.ret, cl.exp)
+            THEN V(FALSE, Ao, "C20 pop returned " \o ToJson(e.ret) \o " expected the mean of " \o ToJson(cl.exp))
+            ELSE IF cl.op = "pop" /\ cl.st # "committed" /\ e.ret.k # "none"
+            THEN V(FALSE, Ao, "C20 pop returned a mean without removing the pair")
             ELSE V(TRUE, Aq, "")
     ELSE IF e.ev = "final"
     THEN IF e.tc = Ao.tc THEN V(TRUE, Ao, "") ELSE V(FALSE, Ao, "C20 final pair differs from the sum of the completed adds")
